@@ -89,6 +89,7 @@ class Scheduler:
     def run(self, programs, schedule, max_steps=4000):
         """programs: {cid: (prepare, ops, execute)}; schedule: iterable of cids (cycled)"""
         self.rec.on_action = self.on_action
+        self.rec.on_post = self.on_action
         threads = {}
         try:
             for cid, (prepare, ops, execute) in programs.items():
@@ -123,3 +124,4 @@ class Scheduler:
             return not stuck
         finally:
             self.rec.on_action = None
+            self.rec.on_post = None
